@@ -112,6 +112,7 @@ func cmdCheck(args []string) {
 	vdir := fs.String("verif", "/verif", "verif directory")
 	workers := fs.Int("j", runtime.NumCPU(), "workers")
 	only := fs.String("only", "", "run only harnesses whose name contains this")
+	evPath := fs.String("evidence", "", "evidence file (default <verif>/evidence/<ID>.json)")
 	verbose := fs.Bool("v", false, "verbose")
 	var pid string
 	if len(args) > 0 && !strings.HasPrefix(args[0], "-") {
@@ -165,6 +166,7 @@ func cmdCheck(args []string) {
 			continue
 		}
 		h := NewHarnessRun(P, hs, *tier)
+		h.known, h.property = known, pid
 		err := h.Run(*workers)
 		r := h.Result(err)
 		results = append(results, r)
@@ -299,7 +301,10 @@ func cmdCheck(args []string) {
 	}
 	eb, _ := json.MarshalIndent(ev, "", " ")
 	os.MkdirAll(filepath.Join(*vdir, "evidence"), 0o755)
-	if err := os.WriteFile(filepath.Join(*vdir, "evidence", pid+".json"), eb, 0o644); err != nil {
+	if *evPath == "" {
+		*evPath = filepath.Join(*vdir, "evidence", pid+".json")
+	}
+	if err := os.WriteFile(*evPath, eb, 0o644); err != nil {
 		fmt.Println("INCONCLUSIVE cannot write evidence:", err)
 		exit = 2
 	}
